@@ -115,6 +115,9 @@ META["rule"] += (
 META["rule"] += (
     " " + "Added after the sixth round: the matrix handed out before a setter and a shallow copy of the object keep the old matrix; after a setter of another kind the object is set back to its constructor's setting (A-B-A, objects without missing values).")
 
+META["rule"] += (
+    " " + 'Added after the seventh round: normalised inter-system networks, half of them from overlapping stretches of one float32 record of the caller.')
+
 HIST = ("diagline_dist", "vertline_dist", "white_vertline_dist")
 
 
